@@ -47,5 +47,6 @@ def floatOps (op : String) (a : List String) : Option String :=
   | "flt.dec", [_, _] => some "ok"
   | "flt.decround", [_, _] => some "ok"
   | "flt.spell16", [_, _, _] => some "ok"
+  | "flt.short", [_, _] => some "ok"      -- oracle on the implementation: a short literal is its LLVM-split full spelling
   | _, _ => none
 end Llir.Drv
